@@ -802,6 +802,9 @@ impl Exec {
         }
         if via_file {
             self.stats.probe("file_snapshots");
+            if std::fs::metadata(&path).map(|m| m.len()).unwrap_or(0) > (1 << 20) {
+                self.stats.probe("snapshot_file_over_1_mib");
+            }
         }
         if keep && self.twins.len() < MAX_TWINS {
             self.twins.push(restored);
